@@ -67,6 +67,18 @@ CHECKS.update({
    note="Depth bounded by enumeration length.",
    design_ref="§3 C18"),
 })
+CHECKS.update({
+ "C03": dict(level="model_checking", engine="parser-state-mc",
+   technique="exhaustive enumeration of ParserState call trees x inputs, executed on the real ParserState and on the operational model S_op, complete-state comparison (hook H1); memchr and no-memchr builds",
+   text="All call trees up to 5 (quick) / 6 (thorough) nodes over 20 core leaves, 12 unary combinators and and_then/or_else, each after 5 preludes that build non-initial stacks and queues; every skip_until list of <= 3 strings in 8 contexts; every stack_match_peek_slice index pair and direction on stacks of depth 0-3; directed nested stack-transaction programs; all inputs over {a,b,é} up to the bound; both feature builds. After every program the full real state (position, token queue with partner indices and tags, stack, lookahead, atomicity) must equal the model's for Ok and Err alike; the all-or-nothing clauses are also probed directly around every sequence/lookahead/rule node.",
+   note="S_op is the executable reading of the doc comments; repeat is driven by a counting closure; attempt tracking is C08's subject.",
+   design_ref="§3 C03"),
+ "C04": dict(level="model_checking", engine="pairs-views-mc",
+   technique="exhaustive enumeration of forests x span assignments x tag placements (PairsBuilder) and of parse trees of the grammar corpus, each observed through every view under every interleaving of next/next_back, against a plain tree",
+   text="Every ordered forest up to 5 (quick) / 6 (thorough) nodes x every assignment of non-decreasing boundary positions over \"aé\\nb\", \"ab\", \"\" x tag placements, built with PairsBuilder; plus every distinct successful parse tree of the small grammar corpus (VM, default and grammar-extras), whose token stream must first be balanced, nested, rule-matched, non-decreasing and on boundaries. All 2^k interleavings of next/next_back on Pairs (recursively into_inner and Pairs::single of every node), flatten() and tokens(), with len/size_hint/peek/is_empty after every step; as_str, as_span, concat, line_col, tags, find_tagged, Display, {:#}, Debug and JSON recomputed from the tree.",
+   note="Expected Display/Debug/JSON texts are rebuilt from the tree by the harness; for an empty window only the empty pairs list of the JSON is judged.",
+   design_ref="§3 C04"),
+})
 PENDING = {}
 
 checks = []
@@ -98,6 +110,8 @@ m = {
  },
  "engines": [
    {"name": "history-bfs", "path": "/verif/harness/c11", "serves_properties": ["C11"], "kind_free_text": "explicit-state breadth-first search over operation histories of the real object, replay-rebuilt, lock-step reference model"},
+   {"name": "parser-state-mc", "path": "/verif/harness/c03", "serves_properties": ["C03"], "kind_free_text": "program enumerator: ParserState call trees as data, one driver onto the real methods, one onto the operational model S_op; complete-state comparison through hook H1; built with and without memchr"},
+   {"name": "pairs-views-mc", "path": "/verif/harness/c04", "serves_properties": ["C04"], "kind_free_text": "forest x span x tag enumerator through PairsBuilder plus parse trees from the sdoc corpus; all iterator interleavings on every view against a plain tree"},
    {"name": "text-enumerator", "path": "/verif/harness/c10", "serves_properties": ["C10"], "kind_free_text": "complete enumeration of short strings x offsets x offset pairs on the real Position/Span/LineIndex/Error code against direct references"},
    {"name": "pratt-enumerator", "path": "/verif/harness/c13", "serves_properties": ["C13"], "kind_free_text": "exhaustive operator tables x token sequences on the real PrattParser/ConstPrattParser/PrecClimber against a shunting-yard reference"},
    {"name": "unicode-enumerator", "path": "/verif/harness/c16", "serves_properties": ["C16"], "kind_free_text": "complete enumeration of scalar values x property names x access paths (function, by_name, VM, derived parser)"},
